@@ -1,4 +1,4 @@
-CONSTANTS Scope = 1  NRuns = 2  Design = "asbuilt"  Bug = "WoNoHexPrefix"  Emit = FALSE
+CONSTANTS Scope = 1  NRuns = 2  Design = "asbuilt"  Bug = "WoFirstEntryTwice"  Emit = FALSE
 CONSTANT Comps <- Only_wo
 CONSTANT DevSet <- AllDevs
 INIT Init
